@@ -131,6 +131,23 @@ func (m *CPU) Run(app risc.Application) (int, error) {
 
 		if ret {
 			log.Info(m.ctx, "\t🛑 Return")
+			// The instructions still in an execute unit are older than the return:
+			// they have to complete
+			for busy := true; busy; {
+				busy = false
+				for _, eu := range m.executeUnits {
+					if eu.isEmpty() {
+						continue
+					}
+					busy = true
+					if resp := eu.Cycle(euReq{cycle, m.ctx, app}); resp.err != nil {
+						return 0, resp.err
+					}
+				}
+				if busy {
+					cycle++
+				}
+			}
 			cycle++
 			m.writeBus.Connect(cycle)
 			for !m.areWriteUnitsEmpty() || !m.writeBus.IsEmpty() {
